@@ -6,7 +6,7 @@ CONSTANTS
     Everys = {0, 1, 2, 3, 4, 5}
     Aligns = {FALSE, TRUE}
     Fills = {FALSE, TRUE}
-    MaxTime = 12
+    MaxTime = 10
     MaxPoints = 9
     PurgeGuard = TRUE
 VIEW RingView
